@@ -291,6 +291,14 @@ func (s *Store) Close() error {
 
 	cerr := s.Err()
 
+	// Stop the primary GC before closing the index. A GC cycle in progress
+	// relocates records and re-points the index at them; if the index has
+	// already been flushed and closed those updates are lost, while the old
+	// records are still freed.
+	if mp, ok := s.index.Primary.(*mhprimary.MultihashPrimary); ok {
+		mp.StopGC()
+	}
+
 	// Write outstanding primary records before the index that refers to them,
 	// the same order as commit uses. Otherwise a crash during Close can leave
 	// an index that points at records that were never written.
